@@ -32,6 +32,7 @@ import Vata.Properties.C01
 import Vata.TrimCoded
 import Vata.RenameCoded
 import Vata.InclDownStack
+import Vata.Proofs.InclDownStackStepsTop
 import Vata.UnionIsectMaps
 /-!
 # vdriver – the model side of the correspondence check
@@ -131,12 +132,13 @@ def checkIncl (args res : List String) : Except String (Findings × String) := d
   -- prepared operands must be the implementation's; `none` = step budget exhausted (only an existential bound is proved)
   let mut stk := "-"
   if A.states.length + B.states.length ≤ 6 && (dedupRules A.rules).length + (dedupRules B.rules).length ≤ 12 && chars[2]! != 'T' then
-    match inclDownNonrecStack (sanitize A B).1 (sanitize A B).2.1 60000 with
+    -- step budget = the proved bound `stepBound` (`C01_nonrec_stack_total`): `none` is then impossible for the machine as proved
+    match inclDownNonrecStack (sanitize A B).1 (sanitize A B).2.1 (Vata.stepBound (sanitize A B).1 (sanitize A B).2.1) with
     | some (b, _) =>
       stk := "1"
       if bchar b != chars[2]! then f := f ++ [s!"mismatch down-nonrec stack-machine verdict {bchar b} implementation {chars[2]!}"]
       if b != exp then throw "internal: stack machine contradicts the reference"
-    | none => stk := "0"
+    | none => f := f ++ ["mismatch down-nonrec stack machine returned none at its proved step bound"]
   let ne ← emptyE A
   let tag := s!"incl={bchar exp} emptyA={bchar ne} overrun={over} stackmachine={stk}"
   pure (f, tag)
